@@ -5,21 +5,20 @@ CONSTANTS
   PolysPerTask = 2
   MaxRaw = 1
   Need = 2
-  FB = 1
+  FB = 2
   Target0 = 1
   Slack = 0
   Seq = FALSE
   UseLock = TRUE
   UseGapAtomic = TRUE
+  FinalTestsDone = TRUE
   AbortEnabled = TRUE
-SYMMETRY Perms
 INVARIANT TypeOK
 INVARIANT WriterExclusive
 INVARIANT NoLostInsert
 INVARIANT FinalValid
 INVARIANT FlagsTruthful
 INVARIANT CompleteOrExhausted
-INVARIANT PanicOnlyIfShortOrStale
 INVARIANT NoSpuriousPanic
 INVARIANT AbortBounded
 CHECK_DEADLOCK TRUE
